@@ -426,11 +426,78 @@ def run_cross(case):
     return {"ev": 4, "h": h, "nt": True, "out": sorted(set(outs)), "viol": [v for v in viol if not (v[0] in seen or seen.add(v[0]))]}
 
 
+ALIAS_APPEND = {"string": "'seen'", "bytes": "b'seen'", "varint": "7", "uint16": "7", "uint32": "7", "boolean": "True", "float": "1.5", "datetime": "dt(2020,1,1,tz=UTC)",
+                "digest": "('d41d8cd98f00b204e9800998ecf8427e', None, None)", "path": "'/p'", "net.ipaddress": "'1.2.3.4'", "net.ipnetwork": "'10.0.0.0/8'",
+                "net.tcp.Port": "80", "uri": "'http://h/p'"}
+
+
+def run_alias(case):
+    """An unset field holds None or the type's EMPTY default - also after the object another record holds in that field was
+    filled in place (tags.append(..), digest.md5 = ..): n records are made first, one of them is mutated through the objects its
+    unset fields hold, and every other record - made before or after, through every door - must still be empty there."""
+    import io
+
+    from flow.record import RecordStreamReader, RecordStreamWriter
+
+    h = jhash(case)
+    t, n = case["t"], case["n"]
+    fields = [["string", "name"], [t + "[]", "xs"]] if t != "digest" else [["string", "name"], ["digest", "xs"], ["digest[]", "more"]]
+    desc = recs.descriptor("f/alias", fields)
+    gen = lit.ev("dt(2020,1,1,tz=UTC)")
+    viol = []
+
+    def empty(r, door):
+        for f in desc.get_field_tuples()[1:]:
+            v = getattr(r, f[1])
+            if f[0] == "digest":
+                ok = v is None or (v.md5 is None and v.sha1 is None and v.sha256 is None)
+            else:
+                ok = v is None or (isinstance(v, list) and len(v) == 0)
+            if not ok:
+                viol.append(("C05:unset-field-not-empty-after-in-place-update-of-another-record:%s:%s" % (f[0], door), case, {"door": door, "field": f[1], "holds": repr(v)[:100]}))
+
+    before = [desc.recordType(name="r%d" % i, _generated=gen) for i in range(n)]
+    buf = io.BytesIO()
+    w = RecordStreamWriter(buf)
+    w.write(before[-1])
+    w.flush()
+    victim = before[case["which"] % n]
+    for f in desc.get_field_tuples()[1:]:
+        v = getattr(victim, f[1])
+        if v is None:
+            continue
+        if f[0] == "digest":
+            v.md5 = "d41d8cd98f00b204e9800998ecf8427e"
+        else:
+            for _ in range(case.get("appends", 1)):
+                v.append(lit.ev(ALIAS_APPEND[t]))
+    for i, r in enumerate(before):
+        if r is not victim:
+            empty(r, "made-before")
+    empty(desc.recordType(name="after", _generated=gen), "construct")
+    empty(desc.recordType(_generated=gen), "construct-bare")
+    empty(desc.init_from_dict({"name": "d", "_generated": gen}), "init_from_dict")
+    empty(before[(case["which"] + 1) % n]._replace(name="x") if n > 1 else desc.recordType(_generated=gen), "replace")
+    for r in RecordStreamReader(io.BytesIO(buf.getvalue())):
+        empty(r, "decoded")
+        # and the other way round: filling a decoded record in place
+        for f in desc.get_field_tuples()[1:]:
+            v = getattr(r, f[1])
+            if isinstance(v, list):
+                v.append(lit.ev(ALIAS_APPEND[t]))
+    empty(desc.recordType(name="after-decoded", _generated=gen), "construct-after-decoded-was-filled")
+    seen = set()
+    v2 = [v for v in viol if not (v[0] in seen or seen.add(v[0]))]
+    return {"ev": 6 + n, "h": h, "nt": True, "out": ["alias:%s" % t], "viol": v2, "states": [], "count": {}}
+
+
 def run_case(case):
     from flow.record import GroupedRecord
 
     if case.get("env") and not envleg.in_env(case):
         return envleg.run_single("checks.c05", case)
+    if case.get("alias"):
+        return run_alias(case)
     if case.get("cross"):
         return run_cross(case)
     if case.get("twins"):
@@ -545,6 +612,23 @@ def cases(tier, seed):
         # keyword-named field: the generated class uses the *args/**kwargs template
         for hist in itertools.product(events_for(t, True), repeat=1):
             yield {"t": t, "keyword": True, "events": [[list(e[0]), e[1]] for e in hist]}
+    # size classes of the converting types: values just below / at / above 4 KiB .. 1 MiB, text that ends (and crosses the block
+    # edge) inside a multi-byte sequence, stray bytes at the edge - depth-1 histories through the scalar and the list field
+    edges = [4096, 8192, 65536, 131072] + ([16384, 32768, 1 << 20] if tier == "thorough" else [])
+    for b in edges:
+        big = [("string", "S(b'a', %d) + b'\\xe2\\x82'" % b), ("string", "S(b'a', %d) + b'\\xe2\\x82\\xac' + b'\\xc3'" % (b - 1)), ("string", "S(b'a', %d) + b'\\xff'" % (b + 1)),
+               ("string", "S(b'\\xe2\\x82\\xac', %d) + b'\\xe2'" % (b // 3 + 1)), ("string", "S('\\u20ac', %d) + '\\udcff'" % b), ("wstring", "S(b'a', %d) + b'\\xf0\\x9f\\x98'" % b),
+               ("uri", "b'http://h/' + S(b'p', %d) + b'\\xe2\\x82'" % b), ("bytes", "S(b'\\x00', %d)" % (b + 1)), ("path", "'/' + S('p', %d)" % b)]  # (integers: CPython refuses to print more than 4300 digits; 2**4096 is in the alphabets)
+        for t, spec in big:
+            yield {"t": t, "events": [[["x", spec], V]]}
+            if t in LIST_TYPES:
+                yield {"t": t, "events": [[["xs", "[%s]" % spec], V]]}
+                yield {"t": t, "events": [[["xs", "[%s, %s]" % (TYPED_SEED[t], spec)], V]]}
+    # unset fields next to records whose unset field was filled in place
+    for t in LIST_TYPES + ["digest"]:
+        for n in (1, 2, 5):
+            for which in range(min(n, 2)):
+                yield {"t": t, "alias": True, "n": n, "which": which, "appends": 1 if n < 5 else 3, "events": []}
     # nested record fields: pass-through type, candidates are records and None
     yield {"t": "record", "events": [[["x", "None"], V]]}
     # element classes that share a Python class name (tcp.port / udp.port; ipaddress / IPAddress): both list forms in one process
